@@ -9,6 +9,7 @@
 -/
 import QExPy.Num
 import QExPy.Model.Stats
+import QExPy.Generated.Arrays
 
 namespace QExPy.ArrayEdit
 open QExPy
@@ -47,8 +48,10 @@ variable {α : Type} [Num α]
 
 def zero : α := Num.ofNat 0
 
-/-- `name_index` -/
-def nameAt (name : String) (i : Nat) : String := name ++ "_" ++ toString i
+/-- `name_index`: the format text regenerated from append / insert / delete / __setitem__
+    (translator section `arrays`, which also compares those methods, the operator overloads and
+    `wrap_in_measurement` / `wrap_in_value_array` with the shape this file mirrors) -/
+def nameAt (name : String) (i : Nat) : String := Gen.arrNameAt name i
 
 /-- `wrap_in_measurement`: the pair it stands for, `none` = an exception -/
 def coerceItem : Item α → Option (α × α)
